@@ -105,6 +105,10 @@ func runDesc(sc M) {
 			if len(in)-rd.Len() != consumed {
 				fail("consumed %d bytes, declared length %d", len(in)-rd.Len(), consumed)
 			}
+			pr := &pieceReader{b: append([]byte{}, in...), max: 5}
+			if cp, err := signature.ReadWinCertificate(pr); err != nil || len(in)-len(pr.b) != consumed || !bytes.Equal(cp.Certificate, c.Certificate) {
+				fail("through a reader that delivers pieces: consumed %d bytes, declared length %d (%v)", len(in)-len(pr.b), consumed, err)
+			}
 			if int(c.Length) != num(want, "dwlen") || int(c.Revision) != num(want, "rev") || int(c.CertType) != num(want, "ctype") || !bytes.Equal(c.Certificate, data) {
 				fail("fields decoded as len=%d rev=%x type=%x data=%d bytes", c.Length, c.Revision, c.CertType, len(c.Certificate))
 			}
@@ -188,6 +192,13 @@ func runDesc(sc M) {
 		rest := make([]byte, rd.Len())
 		rd.Read(rest)
 		check("reader", d, len(in)-len(rest), rest)
+		// a reader that hands the bytes over in pieces of at most 5 (a pipe, a socket): same fields, same position
+		pr := &pieceReader{b: append([]byte{}, in...), max: 5}
+		if dp, err := signature.ReadEFIVariableAuthencation2(pr); err != nil {
+			fail("reader(pieces): %v", err)
+		} else {
+			check("reader(pieces)", dp, len(in)-len(pr.b), append([]byte{}, pr.b...))
+		}
 		// from a *bytes.Buffer through Unmarshal; afterwards the source buffer is reused by the caller
 		src := bytes.NewBuffer(append([]byte{}, in...))
 		var du signature.EFIVariableAuthentication2
